@@ -170,8 +170,8 @@ def _cases(tier):
     for sname in ("S2", "S3"):
         # That the default string registry keeps what --datetime / --disable-str-serializable-types did to it is the CLI's documented
         # process-global state: the second run therefore names --datetime again whenever the first one did, and the first never disables.
-        for pre in (["datetime"], ["max_literals_0", "f_attrs"], ["datetime", "converters", "f_dataclasses"]):
-            for opts in (["datetime", "disable_date_time"], ["datetime"], ["f_pydantic", "datetime", "disable_int_bool"], []):
+        for pre in (["datetime"], ["max_literals_0", "f_attrs"], ["datetime", "converters", "f_dataclasses"], ["f_attrs_meta"], ["f_dataclasses_meta", "no_unidecode"]):
+            for opts in (["datetime", "disable_date_time"], ["datetime"], ["f_pydantic", "datetime", "disable_int_bool"], [], ["f_attrs"], ["f_dataclasses"]):
                 if "datetime" in pre and "datetime" not in opts:
                     continue
                 yield {"s": sname, "fmt": "json", "comp": [[0], list(range(1, len(SAMPLES[sname])))], "form": "list", "arg": "m_each",
